@@ -992,6 +992,24 @@ pub fn c04_server(thorough: bool) -> Part {
         z.max_depth = 11;
         explore(&mut part, &z, 300_000, if thorough { 600.0 } else { 40.0 });
     }
+    {
+        // a violation is answered whatever was rejected on the same connection before: rejected
+        // requests one by one (each sent after the reply to the previous one has been read)
+        let over = |c: usize, k: usize, n: usize| format!("PUT /c{}/r{} HTTP/1.1\r\nContent-Length: {}\r\n\r\n", c, k, n).into_bytes();
+        let mk = |script: Vec<Vec<u8>>| {
+            let mut cl = ClientCfg::adversary(script);
+            cl.reads = true;
+            cl.can_close = false;
+            cl.can_shut_rd = false;
+            cl.can_shut_wr = false;
+            cl
+        };
+        let mut h = SrvCfg::base("C04", "rejected requests one by one on the same connection: malformed, over the limit, over the limit again", vec![mk(vec![b"get /c0/r0 HTTP/1.1\r\n\r\n".to_vec(), over(0, 1, 51201), over(0, 2, 70001)]), mk(vec![over(1, 0, 60000), b"GET /c1/r1 HTTP/1.1\r\nnocolon\r\n\r\n".to_vec(), over(1, 2, 51202)])]);
+        h.chunk_replies = true;
+        h.closure_all = true;
+        h.max_depth = 24;
+        explore(&mut part, &h, 300_000, if thorough { 600.0 } else { 50.0 });
+    }
     // limits above the default: 60000 declared under 70000 is fine, 70001 is refused with (70000, 70001)
     let head = |c: usize, n: usize| vec![format!("PUT /c{}/r0 HTTP/1.1\r\nContent-Length: {}\r\n\r\n", c, n).into_bytes()];
     let mut cfg2 = SrvCfg::base("C04", "limit raised above the default (70000 / 51200): declared 60000 and 70001", vec![ClientCfg::well_behaved(head(0, 60000)), ClientCfg::well_behaved(head(1, 70001))]);
